@@ -236,7 +236,7 @@ def cfg_nullable_variables(G: CFG) -> Set[Variable]:
     while True:
         changed = False
         for r in R:
-            if r.variable not in nullable and all(x in nullable for x in r.alternative.symbols):
+            if r.variable not in nullable and all(isinstance(x, Variable) and x in nullable for x in r.alternative.symbols):
                 nullable.add(r.variable)
                 changed = True
         if not changed:
